@@ -56,6 +56,7 @@ package orb
 //@   pure
 //@   requires allNonan(mp)
 //@   ensures tightBound(result, mp)
+//@   ensures nonanB(result)
 //@   loop 1: invariant -1 <= rangeindex && rangeindex < len(mp) && nonanB(b)
 //@   loop 1: invariant forall k :: 0 <= k && k <= rangeindex ==> contains(b, mp[k])
 //@   loop 1: invariant contains(b, mp[0])
@@ -68,17 +69,236 @@ package orb
 //@   pure
 //@   requires allNonan(ls)
 //@   ensures tightBound(result, ls)
+//@   ensures nonanB(result)
 
 //@ func (Ring).Bound(r)
 //@   pure
 //@   requires allNonan(r)
 //@   ensures tightBound(result, r)
+//@   ensures nonanB(result)
 
 //@ func (Polygon).Bound(p)
 //@   pure
 //@   requires len(p) > 0 ==> allNonan(p[0])
+//@   ensures nonanB(result)
 //@   ensures len(p) == 0 ==> same(result, emptyBound)
 //@   ensures len(p) > 0 ==> tightBound(result, p[0])
+
+// Two-level kinds: the bound contains every vertex of every member, each side is attained by some
+// vertex, and it is empty exactly when there is no vertex at all.
+//@ spec allNonan2(m MultiLineString) bool = forall i :: 0 <= i && i < len(m) ==> allNonan(m[i])
+//@ spec noVerts2(m MultiLineString, n int) bool = forall i :: 0 <= i && i < n ==> len(m[i]) == 0
+//@ spec allIn2(r Bound, m MultiLineString, n int) bool = forall i, j :: 0 <= i && i < n && 0 <= j && j < len(m[i]) ==> contains(r, m[i][j])
+//@ spec attained2(r Bound, m MultiLineString, n int) bool = (exists i, j :: 0 <= i && i < n && 0 <= j && j < len(m[i]) && r.Min[0] == m[i][j][0]) && (exists i, j :: 0 <= i && i < n && 0 <= j && j < len(m[i]) && r.Min[1] == m[i][j][1]) && (exists i, j :: 0 <= i && i < n && 0 <= j && j < len(m[i]) && r.Max[0] == m[i][j][0]) && (exists i, j :: 0 <= i && i < n && 0 <= j && j < len(m[i]) && r.Max[1] == m[i][j][1])
+
+//@ func (MultiLineString).Bound(mls)
+//@   pure
+//@   requires allNonan2(mls)
+//@   ensures nonanB(result)
+//@   ensures noVerts2(mls, len(mls)) ==> isempty(result)
+//@   ensures allIn2(result, mls, len(mls))
+//@   ensures !noVerts2(mls, len(mls)) ==> attained2(result, mls, len(mls))
+//@   loop 1: invariant 1 <= i && i <= len(mls) && nonanB(bound)
+//@   loop 1: invariant noVerts2(mls, i) ==> isempty(bound)
+//@   loop 1: invariant allIn2(bound, mls, i)
+//@   loop 1: invariant !noVerts2(mls, i) ==> attained2(bound, mls, i)
+//@   loop 1: invariant !noVerts2(mls, i) ==> !isempty(bound)
+
+// Multi-polygons: only outer rings count; polygons without rings contribute nothing.
+//@ spec allNonan3(m MultiPolygon) bool = forall i :: 0 <= i && i < len(m) && len(m[i]) > 0 ==> allNonan(m[i][0])
+//@ spec noVerts3(m MultiPolygon, n int) bool = forall i :: 0 <= i && i < n ==> len(m[i]) == 0 || len(m[i][0]) == 0
+//@ spec allIn3(r Bound, m MultiPolygon, n int) bool = forall i, j :: 0 <= i && i < n && len(m[i]) > 0 && 0 <= j && j < len(m[i][0]) ==> contains(r, m[i][0][j])
+//@ spec attained3(r Bound, m MultiPolygon, n int) bool = (exists i, j :: 0 <= i && i < n && len(m[i]) > 0 && 0 <= j && j < len(m[i][0]) && r.Min[0] == m[i][0][j][0]) && (exists i, j :: 0 <= i && i < n && len(m[i]) > 0 && 0 <= j && j < len(m[i][0]) && r.Min[1] == m[i][0][j][1]) && (exists i, j :: 0 <= i && i < n && len(m[i]) > 0 && 0 <= j && j < len(m[i][0]) && r.Max[0] == m[i][0][j][0]) && (exists i, j :: 0 <= i && i < n && len(m[i]) > 0 && 0 <= j && j < len(m[i][0]) && r.Max[1] == m[i][0][j][1])
+
+//@ func (MultiPolygon).Bound(mp)
+//@   pure
+//@   requires allNonan3(mp)
+//@   ensures nonanB(result)
+//@   ensures noVerts3(mp, len(mp)) ==> isempty(result)
+//@   ensures allIn3(result, mp, len(mp))
+//@   ensures !noVerts3(mp, len(mp)) ==> attained3(result, mp, len(mp))
+//@   loop 1: invariant 1 <= i && i <= len(mp) && nonanB(bound)
+//@   loop 1: invariant noVerts3(mp, i) ==> isempty(bound)
+//@   loop 1: invariant allIn3(bound, mp, i)
+//@   loop 1: invariant !noVerts3(mp, i) ==> attained3(bound, mp, i)
+//@   loop 1: invariant !noVerts3(mp, i) ==> !isempty(bound)
+
+// geomNonan(g): no vertex that Bound() looks at is NaN (outer rings only for polygons), recursively.
+//@ spec geomNonan(g Geometry) bool = (istype(g, Point) ==> nonanP(as(g, Point))) && (istype(g, Bound) ==> nonanB(as(g, Bound))) && (istype(g, MultiPoint) ==> allNonan(as(g, MultiPoint))) && (istype(g, LineString) ==> allNonan(as(g, LineString))) && (istype(g, Ring) ==> allNonan(as(g, Ring))) && (istype(g, Polygon) ==> (len(as(g, Polygon)) > 0 ==> allNonan(as(g, Polygon)[0]))) && (istype(g, MultiLineString) ==> allNonan2(as(g, MultiLineString))) && (istype(g, MultiPolygon) ==> allNonan3(as(g, MultiPolygon))) && (istype(g, Collection) ==> (forall i :: 0 <= i && i < len(as(g, Collection)) ==> geomNonan(as(g, Collection)[i])))
+
+// Interface-level contract used where Bound() is called through orb.Geometry; checked against the
+// contract of every in-repo implementer (obligations iface:orb.(Geometry).Bound/<kind>#...).
+//@ func (Geometry).Bound(g)
+//@   pure
+//@   requires geomNonan(g)
+//@   ensures nonanB(result)
+
+//@ func (Point).Bound(p)
+//@   pure
+//@   requires nonanP(p)
+//@   ensures nonanB(result) && same(result.Min, p) && same(result.Max, p)
+
+//@ func (Bound).Bound(b)
+//@   pure
+//@   requires nonanB(b)
+//@   ensures same(result, b)
+
+//@ func (Collection).Bound(c)
+//@   pure
+//@   requires forall i :: 0 <= i && i < len(c) ==> geomNonan(c[i])
+//@   ensures nonanB(result)
+//@   ensures len(c) == 0 ==> same(result, emptyBound)
+//@   ensures (forall i :: 0 <= i && i < len(c) ==> c[i] == nil) ==> same(result, emptyBound)
+//@   loop 1: invariant -1 <= rangeindex && rangeindex < len(c) && start == -1 && (forall k :: 0 <= k && k <= rangeindex ==> c[k] == nil)
+//@   loop 2: invariant nonanB(b) && start >= 0 && start < i
+
+// ---------------------------------------------------------------- Clone (deep, fresh at every level)
+//
+// pointsCopy(a, b): b is a bit-identical copy of the point sequence a (nil stays nil).
+// Freshness (`fresh`) is stated in the ensures clauses: the backing array did not exist before the call.
+
+//@ spec pointsCopy(a MultiPoint, b MultiPoint) bool = (a == nil <==> b == nil) && len(a) == len(b) && (forall k :: 0 <= k && k < len(a) ==> same(a[k], b[k]))
+
+//@ func (MultiPoint).Clone(mp)
+//@   floats bits
+//@   modifies nothing
+//@   ensures pointsCopy(mp, result)
+//@   ensures fresh(result)
+
+//@ func (LineString).Clone(ls)
+//@   floats bits
+//@   modifies nothing
+//@   ensures pointsCopy(ls, result)
+//@   ensures fresh(result)
+
+//@ func (Ring).Clone(r)
+//@   floats bits
+//@   modifies nothing
+//@   ensures pointsCopy(r, result)
+//@   ensures fresh(result)
+
+//@ func (Polygon).Clone(p)
+//@   floats bits
+//@   modifies nothing
+//@   ensures (p == nil <==> result == nil) && len(result) == len(p)
+//@   ensures fresh(result)
+//@   ensures forall i :: 0 <= i && i < len(p) ==> pointsCopy(p[i], result[i]) && fresh(result[i])
+//@   loop 1: invariant len(np) == rangeindex + 1 && fresh(np) && np != nil && -1 <= rangeindex && rangeindex < len(p) && cap(np) >= len(p)
+//@   loop 1: invariant forall i :: 0 <= i && i <= rangeindex ==> pointsCopy(p[i], np[i]) && fresh(np[i])
+
+//@ func (MultiLineString).Clone(mls)
+//@   floats bits
+//@   modifies nothing
+//@   ensures (mls == nil <==> result == nil) && len(result) == len(mls)
+//@   ensures fresh(result)
+//@   ensures forall i :: 0 <= i && i < len(mls) ==> pointsCopy(mls[i], result[i]) && fresh(result[i])
+//@   loop 1: invariant len(nmls) == rangeindex + 1 && fresh(nmls) && nmls != nil && -1 <= rangeindex && rangeindex < len(mls) && cap(nmls) >= len(mls)
+//@   loop 1: invariant forall i :: 0 <= i && i <= rangeindex ==> pointsCopy(mls[i], nmls[i]) && fresh(nmls[i])
+
+//@ spec polyCopy(a Polygon, b Polygon) bool = (a == nil <==> b == nil) && len(a) == len(b) && (forall j :: 0 <= j && j < len(a) ==> pointsCopy(a[j], b[j]))
+
+//@ func (MultiPolygon).Clone(mp)
+//@   floats bits
+//@   modifies nothing
+//@   ensures (mp == nil <==> result == nil) && len(result) == len(mp)
+//@   ensures fresh(result)
+//@   ensures forall i :: 0 <= i && i < len(mp) ==> polyCopy(mp[i], result[i]) && fresh(result[i])
+//@   ensures forall i, j :: 0 <= i && i < len(mp) && 0 <= j && j < len(mp[i]) ==> fresh(result[i][j])
+//@   loop 1: invariant len(nmp) == rangeindex + 1 && fresh(nmp) && nmp != nil && -1 <= rangeindex && rangeindex < len(mp) && cap(nmp) >= len(mp)
+//@   loop 1: invariant forall i :: 0 <= i && i <= rangeindex ==> polyCopy(mp[i], nmp[i]) && fresh(nmp[i])
+//@   loop 1: invariant forall i, j :: 0 <= i && i <= rangeindex && 0 <= j && j < len(mp[i]) ==> fresh(nmp[i][j])
+
+// geomCopy1(a, b): b has the same dynamic kind as a and, for the eight non-collection kinds, is a
+// bit-identical deep copy; for a Collection only nil-ness and length (its members are related by
+// geomCopy1 again in the ensures of Clone / Collection.Clone: the induction step over nesting depth).
+//@ spec geomCopy1(a Geometry, b Geometry) bool = typeof(a) == typeof(b) && (istype(a, Point) ==> same(as(a, Point), as(b, Point))) && (istype(a, Bound) ==> same(as(a, Bound), as(b, Bound))) && (istype(a, MultiPoint) ==> pointsCopy(as(a, MultiPoint), as(b, MultiPoint))) && (istype(a, LineString) ==> pointsCopy(as(a, LineString), as(b, LineString))) && (istype(a, Ring) ==> pointsCopy(as(a, Ring), as(b, Ring))) && (istype(a, Polygon) ==> polyCopy(as(a, Polygon), as(b, Polygon))) && (istype(a, MultiLineString) ==> mlsCopy(as(a, MultiLineString), as(b, MultiLineString))) && (istype(a, MultiPolygon) ==> mpolyCopy(as(a, MultiPolygon), as(b, MultiPolygon))) && (istype(a, Collection) ==> ((as(a, Collection) == nil <==> as(b, Collection) == nil) && len(as(a, Collection)) == len(as(b, Collection))))
+//@ spec mlsCopy(a MultiLineString, b MultiLineString) bool = (a == nil <==> b == nil) && len(a) == len(b) && (forall j :: 0 <= j && j < len(a) ==> pointsCopy(a[j], b[j]))
+//@ spec mpolyCopy(a MultiPolygon, b MultiPolygon) bool = (a == nil <==> b == nil) && len(a) == len(b) && (forall i :: 0 <= i && i < len(a) ==> polyCopy(a[i], b[i]))
+
+// typedNil(g): a nil slice of one of the seven slice kinds wrapped in the interface.
+//@ spec typedNil(g Geometry) bool = (istype(g, MultiPoint) && as(g, MultiPoint) == nil) || (istype(g, LineString) && as(g, LineString) == nil) || (istype(g, Ring) && as(g, Ring) == nil) || (istype(g, Polygon) && as(g, Polygon) == nil) || (istype(g, MultiLineString) && as(g, MultiLineString) == nil) || (istype(g, MultiPolygon) && as(g, MultiPolygon) == nil) || (istype(g, Collection) && as(g, Collection) == nil)
+
+//@ func Clone(g)
+//@   floats bits
+//@   modifies nothing
+//@   ensures geomCopy1(g, result)
+//@   ensures istype(g, MultiPoint) ==> fresh(as(result, MultiPoint))
+//@   ensures istype(g, LineString) ==> fresh(as(result, LineString))
+//@   ensures istype(g, Ring) ==> fresh(as(result, Ring))
+//@   ensures istype(g, Polygon) ==> fresh(as(result, Polygon)) && (forall i :: 0 <= i && i < len(as(result, Polygon)) ==> fresh(as(result, Polygon)[i]))
+//@   ensures istype(g, MultiLineString) ==> fresh(as(result, MultiLineString)) && (forall i :: 0 <= i && i < len(as(result, MultiLineString)) ==> fresh(as(result, MultiLineString)[i]))
+//@   ensures istype(g, MultiPolygon) ==> fresh(as(result, MultiPolygon)) && (forall i :: 0 <= i && i < len(as(result, MultiPolygon)) ==> fresh(as(result, MultiPolygon)[i]))
+//@   ensures istype(g, MultiPolygon) ==> (forall i, j :: 0 <= i && i < len(as(g, MultiPolygon)) && 0 <= j && j < len(as(g, MultiPolygon)[i]) ==> fresh(as(result, MultiPolygon)[i][j]))
+//@   ensures istype(g, Collection) ==> fresh(as(result, Collection)) && (forall i :: 0 <= i && i < len(as(g, Collection)) ==> geomCopy1(as(g, Collection)[i], as(result, Collection)[i]))
+
+//@ func (Collection).Clone(c)
+//@   floats bits
+//@   modifies nothing
+//@   ensures (c == nil <==> result == nil) && len(result) == len(c)
+//@   ensures fresh(result)
+//@   ensures forall i :: 0 <= i && i < len(c) ==> geomCopy1(c[i], result[i])
+//@   loop 1: invariant len(nc) == len(c) && fresh(nc) && nc != nil && -1 <= rangeindex && rangeindex < len(c)
+//@   loop 1: invariant forall i :: 0 <= i && i <= rangeindex ==> geomCopy1(c[i], nc[i])
+
+// ---------------------------------------------------------------- Equal (structural equality)
+
+//@ spec peq(p Point, q Point) bool = p[0] == q[0] && p[1] == q[1]
+//@ spec ptsEq(a MultiPoint, b MultiPoint) bool = len(a) == len(b) && (forall k :: 0 <= k && k < len(a) ==> peq(a[k], b[k]))
+//@ spec polyEq(a Polygon, b Polygon) bool = len(a) == len(b) && (forall i :: 0 <= i && i < len(a) ==> ptsEq(a[i], b[i]))
+//@ spec mlsEq(a MultiLineString, b MultiLineString) bool = len(a) == len(b) && (forall i :: 0 <= i && i < len(a) ==> ptsEq(a[i], b[i]))
+//@ spec mpolyEq(a MultiPolygon, b MultiPolygon) bool = len(a) == len(b) && (forall i :: 0 <= i && i < len(a) ==> polyEq(a[i], b[i]))
+//@ spec geomEq(a Geometry, b Geometry) bool = ite(a == nil || b == nil, a == nil && b == nil, typeof(a) == typeof(b) && (istype(a, Point) ==> peq(as(a, Point), as(b, Point))) && (istype(a, Bound) ==> beq(as(a, Bound), as(b, Bound))) && (istype(a, MultiPoint) ==> ptsEq(as(a, MultiPoint), as(b, MultiPoint))) && (istype(a, LineString) ==> ptsEq(as(a, LineString), as(b, LineString))) && (istype(a, Ring) ==> ptsEq(as(a, Ring), as(b, Ring))) && (istype(a, Polygon) ==> polyEq(as(a, Polygon), as(b, Polygon))) && (istype(a, MultiLineString) ==> mlsEq(as(a, MultiLineString), as(b, MultiLineString))) && (istype(a, MultiPolygon) ==> mpolyEq(as(a, MultiPolygon), as(b, MultiPolygon))) && (istype(a, Collection) ==> (len(as(a, Collection)) == len(as(b, Collection)) && (forall i :: 0 <= i && i < len(as(a, Collection)) ==> geomEq(as(a, Collection)[i], as(b, Collection)[i])))))
+//@ spec collEq(a Collection, b Collection) bool = len(a) == len(b) && (forall i :: 0 <= i && i < len(a) ==> geomEq(a[i], b[i]))
+
+//@ func (Point).Equal(p, point)
+//@   pure
+//@   ensures result == peq(p, point)
+
+//@ func (Bound).Equal(b, c)
+//@   pure
+//@   ensures result == beq(b, c)
+
+//@ func (MultiPoint).Equal(mp, multiPoint)
+//@   pure
+//@   ensures result == ptsEq(mp, multiPoint)
+//@   loop 1: invariant len(mp) == len(multiPoint) && -1 <= rangeindex && rangeindex < len(mp)
+//@   loop 1: invariant forall k :: 0 <= k && k <= rangeindex ==> peq(mp[k], multiPoint[k])
+
+//@ func (LineString).Equal(ls, lineString)
+//@   pure
+//@   ensures result == ptsEq(ls, lineString)
+
+//@ func (Ring).Equal(r, ring)
+//@   pure
+//@   ensures result == ptsEq(r, ring)
+
+//@ func (Polygon).Equal(p, polygon)
+//@   pure
+//@   ensures result == polyEq(p, polygon)
+//@   loop 1: invariant len(p) == len(polygon) && -1 <= rangeindex && rangeindex < len(p)
+//@   loop 1: invariant forall k :: 0 <= k && k <= rangeindex ==> ptsEq(p[k], polygon[k])
+
+//@ func (MultiLineString).Equal(mls, multiLineString)
+//@   pure
+//@   ensures result == mlsEq(mls, multiLineString)
+//@   loop 1: invariant len(mls) == len(multiLineString) && -1 <= rangeindex && rangeindex < len(mls)
+//@   loop 1: invariant forall k :: 0 <= k && k <= rangeindex ==> ptsEq(mls[k], multiLineString[k])
+
+//@ func (MultiPolygon).Equal(mp, multiPolygon)
+//@   pure
+//@   ensures result == mpolyEq(mp, multiPolygon)
+//@   loop 1: invariant len(mp) == len(multiPolygon) && -1 <= rangeindex && rangeindex < len(mp)
+//@   loop 1: invariant forall k :: 0 <= k && k <= rangeindex ==> polyEq(mp[k], multiPolygon[k])
+
+//@ func (Collection).Equal(c, collection)
+//@   pure
+//@   ensures result == collEq(c, collection)
+//@   loop 1: invariant len(c) == len(collection) && -1 <= rangeindex && rangeindex < len(c)
+//@   loop 1: invariant forall k :: 0 <= k && k <= rangeindex ==> geomEq(c[k], collection[k])
+
+//@ func Equal(g1, g2)
+//@   pure
+//@   ensures result == geomEq(g1, g2)
 
 // ---------------------------------------------------------------- LineString
 
@@ -90,3 +310,54 @@ package orb
 //@   loop 1: invariant l == len(ls) - 1 && 0 <= i && i <= l/2 + 1
 //@   loop 1: invariant forall k :: 0 <= k && k < i ==> same(ls[k], old(ls[l-k])) && same(ls[l-k], old(ls[k]))
 //@   loop 1: invariant forall k :: i <= k && k <= l-i ==> same(ls[k], old(ls[k]))
+
+//@ func (Ring).Reverse(r)
+//@   floats bits
+//@   ensures len(r) == old(len(r))
+//@   ensures forall k :: 0 <= k && k < len(r) ==> same(r[k], old(r[len(r)-1-k]))
+//@   modifies r[*]
+
+//@ lemma reverse_involution: forall a MultiPoint, b MultiPoint, c MultiPoint :: len(a) == len(b) && len(b) == len(c) && (forall k :: 0 <= k && k < len(a) ==> same(b[k], a[len(a)-1-k])) && (forall k :: 0 <= k && k < len(b) ==> same(c[k], b[len(b)-1-k])) ==> (forall k :: 0 <= k && k < len(a) ==> same(c[k], a[k]))
+//@   floats bits
+
+// ---------------------------------------------------------------- lemmas (proved from the spec functions only)
+//
+// The functions above are proved equal to their spec functions; the lemmas below are the algebraic
+// laws of C06 stated over those spec functions.
+
+//@ spec bsub(a Bound, c Bound) bool = c.Min[0] <= a.Min[0] && c.Min[1] <= a.Min[1] && a.Max[0] <= c.Max[0] && a.Max[1] <= c.Max[1]
+
+//@ lemma extend_contains_point: forall b Bound, p Point, r Bound :: nonanB(b) && nonanP(p) && isExtend(r, b, p) ==> contains(r, p)
+//@ lemma extend_monotone: forall b Bound, p Point, r Bound, q Point :: nonanB(b) && nonanP(p) && isExtend(r, b, p) && contains(b, q) ==> contains(r, q)
+//@ lemma extend_least: forall b Bound, p Point, r Bound, c Bound :: nonanB(b) && nonanP(p) && nonanB(c) && isExtend(r, b, p) && contains(c, p) && bsub(b, c) ==> bsub(r, c)
+//@ lemma extend_idempotent: forall b Bound, p Point, r Bound, r2 Bound :: nonanB(b) && nonanP(p) && isExtend(r, b, p) && isExtend(r2, r, p) ==> beq(r2, r)
+//@ lemma contains_nonempty: forall b Bound, p Point :: nonanP(p) && contains(b, p) ==> !isempty(b)
+//@ lemma union_commutative: forall a Bound, b Bound, r Bound, r2 Bound :: nonanB(a) && nonanB(b) && !(isempty(a) && isempty(b)) && isUnion(r, a, b) && isUnion(r2, b, a) ==> beq(r, r2)
+//@ lemma union_empty_both: forall a Bound, b Bound, r Bound :: isempty(a) && isempty(b) && isUnion(r, a, b) ==> isempty(r)
+//@ lemma union_idempotent: forall a Bound, r Bound :: nonanB(a) && isUnion(r, a, a) ==> beq(r, a)
+//@ lemma union_identity: forall a Bound, e Bound, r Bound :: nonanB(a) && nonanB(e) && isempty(e) && !isempty(a) ==> (isUnion(r, a, e) ==> beq(r, a)) && (isUnion(r, e, a) ==> beq(r, a))
+//@ lemma union_contains_left: forall a Bound, b Bound, r Bound, q Point :: nonanB(a) && nonanB(b) && isUnion(r, a, b) && nonanP(q) && contains(a, q) ==> contains(r, q)
+//@ lemma union_contains_right: forall a Bound, b Bound, r Bound, q Point :: nonanB(a) && nonanB(b) && isUnion(r, a, b) && nonanP(q) && contains(b, q) ==> contains(r, q)
+//@ lemma union_least: forall a Bound, b Bound, r Bound, c Bound :: nonanB(a) && nonanB(b) && nonanB(c) && !isempty(a) && !isempty(b) && isUnion(r, a, b) && bsub(a, c) && bsub(b, c) ==> bsub(r, c)
+//@ lemma union_associative: forall a Bound, b Bound, c Bound, ab Bound, bc Bound, r1 Bound, r2 Bound :: nonanB(a) && nonanB(b) && nonanB(c) && !isempty(a) && !isempty(b) && !isempty(c) && isUnion(ab, a, b) && isUnion(r1, ab, c) && isUnion(bc, b, c) && isUnion(r2, a, bc) ==> r1.Min[0] == r2.Min[0] && r1.Min[1] == r2.Min[1] && r1.Max[0] == r2.Max[0] && r1.Max[1] == r2.Max[1]
+//@   uses join_nonempty(a, b, ab), join_nonempty(b, c, bc), union_is_join(a, b, ab), union_is_join(ab, c, r1), union_is_join(b, c, bc), union_is_join(a, bc, r2), join_associative(a, b, c, ab, bc, r1, r2)
+//@ lemma intersects_symmetric: forall a Bound, b Bound :: intersects(a, b) == intersects(b, a)
+//@ lemma intersects_witness: forall a Bound, b Bound :: nonanB(a) && nonanB(b) && !isempty(a) && !isempty(b) && intersects(a, b) ==> contains(a, mk(Point, fmax(a.Min[0], b.Min[0]), fmax(a.Min[1], b.Min[1]))) && contains(b, mk(Point, fmax(a.Min[0], b.Min[0]), fmax(a.Min[1], b.Min[1])))
+//@ lemma intersects_complete: forall a Bound, b Bound, q Point :: nonanP(q) && contains(a, q) && contains(b, q) ==> intersects(a, b)
+//@ lemma peq_symmetric: forall p Point, q Point :: peq(p, q) ==> peq(q, p)
+//@ lemma peq_transitive: forall p Point, q Point, r Point :: peq(p, q) && peq(q, r) ==> peq(p, r)
+//@ lemma peq_reflexive_nonan: forall p Point :: nonanP(p) ==> peq(p, p)
+//@ lemma ptsEq_symmetric: forall a MultiPoint, b MultiPoint :: ptsEq(a, b) ==> ptsEq(b, a)
+//@ lemma ptsEq_transitive: forall a MultiPoint, b MultiPoint, c MultiPoint :: ptsEq(a, b) && ptsEq(b, c) ==> ptsEq(a, c)
+//@ lemma ptsEq_reflexive_nonan: forall a MultiPoint :: allNonan(a) ==> ptsEq(a, a)
+//@ lemma polyEq_symmetric: forall a Polygon, b Polygon :: polyEq(a, b) ==> polyEq(b, a)
+//@ lemma polyEq_transitive: forall a Polygon, b Polygon, c Polygon :: polyEq(a, b) && polyEq(b, c) ==> polyEq(a, c)
+//@ lemma mlsEq_symmetric: forall a MultiLineString, b MultiLineString :: mlsEq(a, b) ==> mlsEq(b, a)
+//@ lemma mlsEq_transitive: forall a MultiLineString, b MultiLineString, c MultiLineString :: mlsEq(a, b) && mlsEq(b, c) ==> mlsEq(a, c)
+//@ lemma mpolyEq_symmetric: forall a MultiPolygon, b MultiPolygon :: mpolyEq(a, b) ==> mpolyEq(b, a)
+//@ lemma mpolyEq_transitive: forall a MultiPolygon, b MultiPolygon, c MultiPolygon :: mpolyEq(a, b) && mpolyEq(b, c) ==> mpolyEq(a, c)
+//@ lemma copy_is_equal: forall a MultiPoint, b MultiPoint :: allNonan(a) && pointsCopy(a, b) ==> ptsEq(a, b)
+//@ lemma join_nonempty: forall a Bound, b Bound, r Bound :: nonanB(a) && nonanB(b) && !isempty(a) && !isempty(b) && isJoin(r, a, b) ==> !isempty(r) && nonanB(r)
+//@ lemma union_is_join: forall a Bound, b Bound, r Bound :: !isempty(a) && !isempty(b) ==> (isUnion(r, a, b) <==> isJoin(r, a, b))
+//@ lemma join_associative: forall a Bound, b Bound, c Bound, ab Bound, bc Bound, r1 Bound, r2 Bound :: nonanB(a) && nonanB(b) && nonanB(c) && isJoin(ab, a, b) && isJoin(r1, ab, c) && isJoin(bc, b, c) && isJoin(r2, a, bc) ==> r1.Min[0] == r2.Min[0] && r1.Min[1] == r2.Min[1] && r1.Max[0] == r2.Max[0] && r1.Max[1] == r2.Max[1]
+//@ lemma fmin_associative: forall x float64, y float64, z float64, m1 float64, m2 float64, r1 float64, r2 float64 :: !isnan(x) && !isnan(y) && !isnan(z) && m1 == fmin(x, y) && r1 == fmin(m1, z) && m2 == fmin(y, z) && r2 == fmin(x, m2) ==> r1 == r2
